@@ -403,6 +403,26 @@ func streamAlg(c *ctx) {
 			}
 		}
 		m := &cose.SignMessage[[]byte]{Payload: payload}
+		// an algorithm in the BODY buckets of a COSE_Sign binds nothing: each signature is checked against its own
+		// protected bucket whatever the body says (in a third of the messages the body names the algorithm of one of the
+		// verifiers' keys, or some other one, in the protected and / or the unprotected bucket)
+		bodyAlg := ""
+		if c.r.intn(3) == 0 {
+			ba := vks[c.r.intn(len(vks))].alg
+			if c.r.intn(4) == 0 {
+				ba = pick(c.r, allAlgs[:4]).alg
+			}
+			switch c.r.intn(3) {
+			case 0:
+				m.Protected = cose.Headers{iana.HeaderParameterAlg: ba}
+			case 1:
+				m.Unprotected = cose.Headers{iana.HeaderParameterAlg: ba}
+			default:
+				m.Protected = cose.Headers{iana.HeaderParameterAlg: ba}
+				m.Unprotected = cose.Headers{iana.HeaderParameterAlg: ba}
+			}
+			bodyAlg = fmt.Sprintf("|body-alg=%d", ba)
+		}
 		data, err := m.SignAndEncode(signers, nil)
 		if err != nil {
 			continue
@@ -416,7 +436,7 @@ func streamAlg(c *ctx) {
 			sigs = append(sigs, "("+qMap(s.Protected)+", "+qMap(s.Unprotected)+")")
 		}
 		verr := m2.Verify(verifiers, nil)
-		line := fmt.Sprintf("alg-sign-verify|i=%d|nsig=%d|mismatch=%v|unmatched=%v => ok=%v", i, nsig, mismatch, unmatched, verr == nil)
+		line := fmt.Sprintf("alg-sign-verify|i=%d|nsig=%d|mismatch=%v|unmatched=%v%s => ok=%v", i, nsig, mismatch, unmatched, bodyAlg, verr == nil)
 		c.addCase(fmt.Sprintf("ASignVerify %s %s %s", qList(sigs), qList(vkeys), qB(verr == nil)), line)
 		if (mismatch || unmatched) && verr == nil {
 			c.fail(failure{Op: "alg-binding", What: "COSE_Sign verified although a signer's algorithm or kid has no matching verifier", Input: line, Observed: "ok", Expected: "error", Case: line, Theorem: "C05_sign_verify_mismatch_refused"})
@@ -424,6 +444,6 @@ func streamAlg(c *ctx) {
 		if !mismatch && !unmatched && verr != nil {
 			c.fail(failure{Op: "alg-binding", What: "COSE_Sign refused although every signer has its verifier", Input: line, Observed: verr.Error(), Expected: "ok", Case: line, Theorem: "C05_sign_verify_mismatch_refused"})
 		}
-		c.nontriv(fmt.Sprintf("signverify|%d|%v|%v", nsig, mismatch, unmatched))
+		c.nontriv(fmt.Sprintf("signverify|%d|%v|%v|%v", nsig, mismatch, unmatched, bodyAlg != ""))
 	}
 }
